@@ -11,6 +11,8 @@ import os
 import pathlib
 import sys
 
+from simkit.lockstep import in_task, yield_point
+
 EXIT_KILLED = 77
 
 
@@ -58,6 +60,20 @@ class TornWriter(io.RawIOBase):
     def write(self, b) -> int:  # noqa: ANN001
         data = bytes(b)
         plan = PLAN
+        if in_task() and self._fd >= 0:
+            # lockstep pool: other workers (and the parent) may run between two chunks
+            yield_point("write")
+            if len(data) > 1:
+                half = len(data) // 2
+                os.write(self._fd, data[:half])
+                self._n += half
+                plan.bytes_by_file[self._index] = self._n
+                data = data[half:]
+                yield_point("write")
+                os.write(self._fd, data)
+                self._n += len(data)
+                plan.bytes_by_file[self._index] = self._n
+                return half + len(data)
         if self._fd < 0:  # the writing worker is already dead: nothing reaches the disk
             return len(data)
         if plan.kind == "byte" and plan.file == self._index and not plan.fired:
@@ -78,6 +94,7 @@ class TornWriter(io.RawIOBase):
 
     def close(self) -> None:
         if self._fd >= 0:
+            yield_point("close")
             os.close(self._fd)
             self._fd = -1
         super().close()
@@ -95,13 +112,29 @@ class CrashPath(pathlib.PosixPath):
 
     def open(self, mode="r", buffering=-1, encoding=None, errors=None, newline=None):  # noqa: ANN001, ANN201
         if "b" in mode and ("w" in mode or "x" in mode) and "+" not in mode:
+            yield_point("open_w")
             idx = PLAN.files_opened
             PLAN.files_opened += 1
             raw = TornWriter(os.fspath(self), idx, exclusive="x" in mode)
             if buffering == 0:
                 return raw
             return io.BufferedWriter(raw, buffer_size=8192)
+        yield_point("open_r")
         return super().open(mode, buffering, encoding, errors, newline)
+
+    def exists(self, *a, **k):  # noqa: ANN002, ANN003, ANN201
+        yield_point("exists")
+        return super().exists(*a, **k)
+
+    def replace(self, target):  # noqa: ANN001, ANN201
+        yield_point("replace")
+        out = super().replace(target)
+        yield_point("replaced")
+        return out
+
+    def unlink(self, missing_ok=False):  # noqa: ANN001, ANN201
+        yield_point("unlink")
+        return super().unlink(missing_ok=missing_ok)
 
 
 def _make_tracer(prefixes: tuple[str, ...]):  # noqa: ANN202
